@@ -11,6 +11,7 @@ static const pcase cases[] = {
     {"header_lines3_n_rows", "h\nc\nd\ne\n", true, csv::csv_mapping_kind::n_rows, 3, false}, {"header_lines3_n_objects", "h\nc\nd\ne\n", true, csv::csv_mapping_kind::n_objects, 3, false}, {"header_lines3_n_rows_no_header", "h\nc\nd\ne\n", false, csv::csv_mapping_kind::n_rows, 3, false},
     {"typed_group_repeat_empty_is_null", "1,x,,3\n", false, csv::csv_mapping_kind::n_rows, 0, false, "integer,string,[float]*", true}, {"typed_group_repeat_empty_is_null_objects", "a,b,c,d\n1,x,,3\n", true, csv::csv_mapping_kind::n_objects, 0, false, "integer,string,[float]*", true},
     {"typed_group_repeat_ignore_empty_objects", "a,b,c,d\n1,x,,3\n", true, csv::csv_mapping_kind::n_objects, 0, true, "integer,string,[float]*", false},
+    {"nested_typed_groups_objects", "a,b,c,d\n1,x,2,3\n", true, csv::csv_mapping_kind::n_objects, 0, false, "integer,[string,[float]*]", false}, {"single_typed_group_objects", "a,b,c,d\n1,x,2,3\n", true, csv::csv_mapping_kind::n_objects, 0, false, "integer,string,[float]*", false},
     {"typed_group_repeat_empty_kept", "1,x,,3\n", false, csv::csv_mapping_kind::n_rows, 0, false, "integer,string,[float]*", false}, {"typed_group_repeat_no_empty_is_null", "1,x,2,3\n", false, csv::csv_mapping_kind::n_rows, 0, false, "integer,string,[float]*", true},
     {"repeat_plain_float", "a,b\n1,2\n", true, csv::csv_mapping_kind::n_rows, 0, false, "float*", false},
     {"nameless_objects_quote_after_text_at_eof_ignore_empty", "a,b\n1x\"\"", false, csv::csv_mapping_kind::n_objects, 0, true}, {"nameless_objects_quote_after_text_at_eof", "a,b\n1x\"\"", false, csv::csv_mapping_kind::n_objects, 0, false},
